@@ -106,7 +106,7 @@ func runC18(c *eng.Ctx) {
 		eng.InspectNoLit(f.Decl.Body, func(n ast.Node) bool {
 			if r, isR := n.(*ast.ReturnStmt); isR && len(r.Results) == 1 {
 				if cl, isC := ast.Unparen(r.Results[0]).(*ast.CallExpr); isC && isCallNamed(info, cl, "Wait") {
-					if s, isS := ast.Unparen(cl.Fun).(*ast.SelectorExpr); isS && eng.IsField(info, s.X, limiter) {
+					if s, isS := ast.Unparen(cl.Fun).(*ast.SelectorExpr); isS && eng.IsField(info, resolveLocal(info, f.Decl.Body, s.X), limiter) {
 						ok = true
 					}
 				}
@@ -248,6 +248,9 @@ func runC18(c *eng.Ctx) {
 			okW := ref.In != nil && ref.In.Key == pkgHook+".(*Hook).LoadConfig"
 			if okW {
 				val := storedValue(ref)
+				if val != nil {
+					val = resolveLocal(ref.Pkg.TypesInfo, ref.In.Decl.Body, val)
+				}
 				okW = val != nil && isCallTo(ref.Pkg.TypesInfo, val, fo)
 			}
 			r3.Check(okW, "RateLimiter store in "+ref.Where(), ref.Node.Pos(), "set once from CreateRateLimiter(h.Config) in LoadConfig", "the hook's rate limiter is replaced outside LoadConfig (or not from the hook's settings): its token state is lost or the settings are ignored")
